@@ -28,6 +28,8 @@ for n, m in sorted(meta_in.items()):
     os.makedirs(dst, exist_ok=True)
     shutil.copy(patch, f"{dst}/patch.diff")
     shutil.copy(demo, f"{dst}/demo.rs")
+    if os.path.exists(f"{src}/notes.md"):
+        shutil.copy(f"{src}/notes.md", f"{dst}/author_notes.md")
     confirmed = {}
     if os.path.exists(conf):
         shutil.copy(conf, f"{dst}/confirm.txt")
@@ -37,7 +39,7 @@ for n, m in sorted(meta_in.items()):
         confirmed = {
             "demo_without_patch": "passes" if "test result: ok" in sec.get("demo WITHOUT patch", "") and "FAILED" not in sec.get("demo WITHOUT patch", "") else "UNEXPECTED: " + sec.get("demo WITHOUT patch", "")[-200:],
             "demo_with_patch": "fails" if "test result: FAILED" in sec.get("demo WITH patch", "") else "UNEXPECTED: " + sec.get("demo WITH patch", "")[-200:],
-            "pinned_suite_with_patch": (re.search(r"stable_pass=\d+ still_passing=\d+ not_passing=\d+", sec.get("pinned suite WITH patch", "")) or [""])[0] if sec.get("pinned suite WITH patch") else "",
+            "pinned_suite_with_patch": ((re.search(r"stable_pass=\d+ still_passing=\d+ not_passing=\d+", sec.get("pinned suite WITH patch", "")) or [sec.get("pinned suite WITH patch", "").strip()[:200]])[0]) if sec.get("pinned suite WITH patch") else "",
             "how": "bin/confirm_seeded.sh in a scratch worktree of /repo: cargo test --test seeded_demo without and with the patch, then the pinned nextest command with the patch, compared with BASELINE.json stable_pass",
         }
     tried = []
